@@ -183,8 +183,15 @@ unsafe fn copy_bytes(src: *const u8, dst: *mut u8, count: usize){
         return;
     }
 
-    for i in 0..count{
-        *dst.add(i) = *src.add(i);
+    // Regions may overlap: copy in the direction that never reads an overwritten byte.
+    if (dst as usize) <= (src as usize) {
+        for i in 0..count{
+            *dst.add(i) = *src.add(i);
+        }
+    } else {
+        for i in (0..count).rev(){
+            *dst.add(i) = *src.add(i);
+        }
     }
 }
 
